@@ -39,6 +39,10 @@ def _child(site_desc, opts, conc, seed, workdir, logpath, kill, run_index=0):
     """Runs in a forked child. kill = None | ('table', k) | ('commit', k) | ('request', k) | ('sigterm', k): the
     application's own SIGTERM handler is run when the k-th request arrives."""
     fd = os.open(logpath, os.O_WRONLY | os.O_CREAT | os.O_APPEND, 0o644)
+    if opts.get('same_pid'):
+        # both runs see themselves as process 1 (wpull as the only process of a restarted container): whatever a run
+        # leaves behind under its own process id must not make the rerun take itself for the owner that is still alive
+        os.getpid = lambda: 1
     counters = {'table': 0, 'commit': 0, 'request': 0, 'statement': 0}
 
     def sink(ev):
@@ -302,6 +306,7 @@ def run(ctx):
         # the command as typed in the run's directory: relative --database and -P, the output directory made by the
         # first run (the same command must find the same database the second time)
         opts['relative_paths'] = (plan == 1 or rng.random() < 0.2) and not opts['database_uri']
+        opts['same_pid'] = plan == 0 or rng.random() < 0.2
         leaves = [p for p, d in site.pages.items() if d['kind'] == 'leaf']
         if leaves and (plan == 1 or rng.random() < 0.25):
             site.pages[rng.choice(leaves)] = {'kind': 'flaky'}
